@@ -276,6 +276,66 @@ def run(loader, R, tier):
     R.floor("float-contagion entries", R.instances.get("R6.5", 0), 150)
     R.floor("nan entries", R.instances.get("R6.3", 0), 150)
     R.floor("extended-number entries", R.instances.get("R6.4", 0), 40)
+    R.rule("R6.6", "add()/mul() of two Numbers is addnum()/mulnum()")
+    basic_level_numbers(prog, R)
+
+
+def basic_level_numbers(prog, R):
+    """R6.6: at the Basic level add()/mul() of two Numbers must be the
+    Number-level commutative operation (addnum/mulnum, which R6.1-R6.5
+    decide), not the term-dictionary path whose treatment of inexact zeros
+    depends on operand order."""
+    from selib import sym as _sym
+    want = {"SymEngine::add": "addnum", "SymEngine::mul": "mulnum"}
+    for qn, core in sorted(want.items()):
+        fs = [f for f in prog.fn_by_qn(qn)
+              if len(f.get("params", ())) == 2
+              and "RCP<const SymEngine::Basic>" in f["params"][0]["t"]
+              and "vector" not in f["params"][0]["t"]]
+        if len(fs) != 1:
+            raise AnalysisBroken("%s(a, b): expected one definition, got %d"
+                                 % (qn, len(fs)))
+        f = fs[0]
+        pa, pb = f["params"][0]["n"], f["params"][1]["n"]
+        found = []
+        ok_for = set()
+
+        def cb(n, guards, line, f=f):
+            if n.get("k") == "call" and n.get("n") in (core, "i" + core):
+                numtests = set()
+                composite = set()
+                for g in _sym.flatten_guards(guards):
+                    if g[0] == "case":
+                        continue
+                    c, pol = g
+                    if c.get("k") != "call" or not pol:
+                        continue
+                    ps = {x["n"] for x in walk(c)
+                          if x.get("k") == "ref" and x.get("d") == "param"}
+                    if c.get("n") == "is_a_Number":
+                        numtests |= ps
+                    elif c.get("n") == "is_a":
+                        composite |= ps
+                args = {x["n"] for a_ in n.get("a", ()) for x in walk(a_)
+                        if x.get("k") == "ref" and x.get("d") == "param"}
+                for p in (pa, pb):
+                    other = pb if p == pa else pa
+                    if p in args and p in numtests \
+                            and other not in composite:
+                        ok_for.add(p)
+                        found.append(n.get("l"))
+        _sym.visit_guarded(f["body"], cb)
+        R.instance("R6.6", short(qn), sample={
+            "function": short(qn), "number_number_branch_calls": core,
+            "lines": found})
+        if ok_for != {pa, pb}:
+            R.violation(
+                "R6.6", short(qn), prog.loc(f),
+                "%s(a, b): for two Numbers not both operands reach "
+                "%s()/i%s() under their is_a_Number test: two numbers go "
+                "through the term dictionary, "
+                "whose result depends on operand order for inexact zeros "
+                "(add(0.0, 1) vs add(1, 0.0))" % (short(qn), core, core))
 
 
 MANIFEST = dict(
